@@ -441,6 +441,55 @@ def block_conditions(g, block):
     return [e.cond for e in necessary_edges(g, block)]
 
 
+def _subst_phi(e, local, repl):
+    if not isinstance(e, tuple) or not e:
+        return e
+    if e[0] == "phi" and e[1] == local:
+        return repl
+    out = []
+    for y in e:
+        if isinstance(y, tuple):
+            if y and isinstance(y[0], str):
+                out.append(_subst_phi(y, local, repl))
+            else:
+                out.append(tuple(_subst_phi(z, local, repl) if isinstance(z, tuple) else z for z in y))
+        else:
+            out.append(y)
+    return tuple(out)
+
+
+def expanded_accepts(g, refusal_kinds=("err",), depth=3, limit=64):
+    """accepting returns with their merged values taken apart: when the returned term mentions a local that has several
+    definitions (the result of a `match`/`if` expression stored in a variable, then wrapped once at the end), the row is
+    split into one row per definition, each with the path conditions of that definition added.  `Ok(match k { A => x, B => y })`
+    and `match k { A => Ok(x), B => Ok(y) }` then give the same rows: [(expr, conds, retdef)]."""
+    from expr import walk
+    rows = [(rd.expr, list(conds), rd) for rd, conds in decision_table(g, refusal_kinds) if rd.expr is not None]
+    for _ in range(depth):
+        out = []
+        changed = False
+        for (e, conds, rd) in rows:
+            ph = [x for x in walk(e) if isinstance(x, tuple) and x and x[0] == "phi"]
+            done = False
+            for x in ph:
+                l = x[1]
+                defs = phi_defs(g, l)
+                # only merge points: every definition lies on a path to this return and none is inside a loop
+                if len(defs) < 2 or any(g.loop_of(bi) is not None for (_, _, bi) in defs):
+                    continue
+                for (de, dconds, bi) in defs:
+                    out.append((_subst_phi(e, l, de), conds + [c for c in dconds if c not in conds], rd))
+                changed = True
+                done = True
+                break
+            if not done:
+                out.append((e, conds, rd))
+        rows = out
+        if not changed or len(rows) > limit:
+            break
+    return rows
+
+
 def edge_conditions(g, e):
     """conditions under which the branch of edge e is reached (for an edge borrowed from a helper: also the helper's)"""
     return block_conditions(g, e.block) + list(getattr(e, "inner_conds", ()) or ())
